@@ -242,3 +242,25 @@ def term_is(term, kind=None, mentions=None):
             if m not in refs and m not in cond:
                 return False
     return True
+
+
+def edge_dominates(func, bid, k, ev, entry=None):
+    """True when event ev can only be reached (from entry) through successor edge k of block bid."""
+    entry = func.entry if entry is None else entry
+    target = ev.block
+    seen = set()
+    work = [entry]
+    while work:
+        b = work.pop()
+        if b in seen or b not in func.blocks:
+            continue
+        seen.add(b)
+        if b == target:
+            return False
+        for i, s in enumerate(func.blocks[b].succs):
+            if s is None or (b == bid and i == k):
+                continue
+            work.append(s)
+    # reachable at all through the edge?
+    succ = func.blocks[bid].succs[k]
+    return succ is not None and target in reachable_blocks(func, succ)
